@@ -21,6 +21,7 @@ func init() {
 			"F5 a failed node never releases its post-nodes and Pipestance.GetState reports Complete only if every node is complete/disabled, " +
 			"F6 mrp exits with success status only from the completed-cleanup path. " +
 			"F7 a verdict-returning function that records a job failure returns false afterwards, F8 a function replacing a live fork's metadata objects drops the cached metadata list, F9 every fork metadata object into which mrp writes _errors is cleared by the partial reset (one known finding: Fork.metadata). " +
+			"F10 a split that is submitted again stores a fresh chunk list first (while doChunks builds the list only when it is empty). " +
 			"NOT decided: error text naming the stage, retry classification, the Python adapter.",
 		Assumptions: commonAssumptions,
 	}
